@@ -178,7 +178,7 @@ def outcomeStrT (className : String) : OutcomeT → String
 def handleLoad (toks : List String) (impl : Option String) : Option (String × String) :=
   match toks with
   | [op, className, capS, cfgS, docS] => do
-    let throwError ← if op == "val.load" then some false else if op == "val.loadt" then some true else none
+    let throwError ← if op == "val.load" || op == "val.loads" then some false else if op == "val.loadt" then some true else none
     let cap ← capS.toNat?
     let cfg ← parseConfig cfgS
     if !(cfgOf cfg "e").all enumValidatorOk then none
@@ -261,6 +261,7 @@ def handle (toks : List String) (impl : Option String) : Option (String × Strin
   match toks with
   | "val.load" :: _ => handleLoad toks impl
   | "val.loadt" :: _ => handleLoad toks impl
+  | "val.loads" :: _ => handleLoad toks impl        -- the same load through the std::istream overload of LoadObject
   | _ => handleText toks impl
 
 
